@@ -388,6 +388,21 @@ impl World {
         self.cfgs.insert(name.to_string(), CfgInfo { key: config, fee_auth: fa, collect_auth: ca, reward_super_auth: rk_name(&ra), ext: None });
     }
 
+    /// `initialize_config` as a recordable instruction (the config is registered in `cfgs` by the caller on success)
+    pub fn ix_init_config(&mut self, name: &str, default_protocol_fee_rate: u16) -> (Ix, CfgInfo) {
+        let config = self.new_key(&format!("cfg:{name}"));
+        let (fa, ca, ra) = (format!("feeAuth{name}"), format!("collectAuth{name}"), format!("rewardAuth{name}"));
+        let fk = self.add_user(&fa);
+        let ck = self.add_user(&ca);
+        let rk = self.add_user(&ra);
+        let mut m = wa::InitializeConfig { config, funder: self.admin, system_program: system_program::ID }.to_account_metas(None);
+        m[0].is_signer = true;
+        let ix = Ix::new("initialize_config", "InitializeConfig", m,
+            wi::InitializeConfig { fee_authority: fk, collect_protocol_fees_authority: ck, reward_emissions_super_authority: rk, default_protocol_fee_rate }.data(),
+            json!({"cfg": name, "rate": default_protocol_fee_rate}));
+        (ix, CfgInfo { key: config, fee_auth: fa, collect_auth: ca, reward_super_auth: rk_name(&ra), ext: None })
+    }
+
     pub fn fee_tier_key(&self, cfg: &str, index: u16) -> Pubkey {
         pda(&[b"fee_tier", self.cfgs[cfg].key.as_ref(), &index.to_le_bytes()])
     }
